@@ -474,9 +474,11 @@ Fixpoint meth_call (fuel : nat) (m : meth) (o : arg) (n : nat) {struct fuel} : o
               end
             else if cls_eqb c CPermutation then
               match ch, lookup k_validate_args nd with
-              | [ATensor p; ATensor q], Some va =>
-                  match ctor c [ATensor p; ATensor q] [(k_validate_args, AOther va)] with
-                  | Some (AOp c' ch' dn' nd' at') => Some (AOp c' ch' dn' nd' (perm_attrs d at'), n)
+              | [ATensor _; ATensor _], Some _ =>
+                  (* perm.to(device=device), inv_perm.to(device=device): the same tensors; the keyword passed explicitly,
+                     validate_args=self._kwargs["validate_args"], is the class's only keyword, i.e. **self._kwargs *)
+                  match again ch nd n with
+                  | Some (AOp c' ch' dn' nd' at', n') => Some (AOp c' ch' dn' nd' (perm_attrs d at'), n')
                   | _ => None
                   end
               | _, _ => None
